@@ -90,6 +90,23 @@ def explore(n, page_size, dims=2, nan_rows=True, perm=None, mode='covers', max_p
             empty = it.getattr_(tree, 'empty', None, True)
         except Infeasible:
             continue
+        except PathRaise as e:
+            # building or querying the index raises on a valid input: a violation if the path is feasible
+            ex.paths += 1
+            ex.solver.push()
+            ex.solver.add(*ex.pc)
+            r = str(ex.solver.check())
+            nq += 1
+            if r == 'sat':
+                from .framework import model_ints
+                violation = {'model': model_ints(ex.solver.model(), allv), 'covers': [], 'overlaps': [], 'script_len': len(script),
+                             'total_bounds': [], 'raised': f'{getattr(e.exc, "__name__", e.exc)}: {e.text}'}
+                ex.solver.pop()
+                break
+            ex.solver.pop()
+            if r != 'unsat':
+                return {'status': 'unknown', 'detail': 'solver unknown on the feasibility of a raising path', 'paths': ex.paths}
+            continue
         ex.paths += 1
         outcomes['nonempty_result' if (cov or ov) else 'empty_result'] += 1
         conds = []
